@@ -154,6 +154,7 @@ Proof.
     + intros E. destruct (IH _ _ _ E) as [H|[f0 [r0 [I0 G0]]]]; [left; assumption | right; exists f0, r0; split; [right; assumption | assumption]].
     + destruct (contained (c_var c) (w_fs w) f np) as [[|]|]; try (intros E; inversion E; subst; left; reflexivity).
       destruct (parents_contained (w_fs w) f np) as [[|]|]; try (intros E; inversion E; subst; left; reflexivity).
+      destruct (source_contained (w_fs w) f) as [[|]|]; try (intros E; inversion E; subst; left; reflexivity).
       destruct (renamer c w cw (pf_rel f) np false) as [w1 [e1|]].
       * destruct (is_file_exists e1) eqn:X.
         -- intros E. destruct (IH _ _ _ E) as [H|[f0 [r1 [I0 G0]]]]; [left; assumption | right; exists f0, r1; split; [right; assumption | assumption]].
